@@ -83,6 +83,19 @@ def check_elements(part, zs):
                 part.fail("row:%s:%d" % (rname, z), "Z=%d via %s carries data %r, table row is %r" % (z, rname, (e.name, e.symbol, e.cov, e.vdw, e.mass), row), case)
             if e.covalent_radius != row[2] or e.vdw_radius != row[3]:
                 part.fail("radii:%d" % z, "radius properties of Z=%d disagree with the table" % z, case)
+            # an element that went through copy.copy / copy.deepcopy / pickle is the same element with the same tabulated data
+            if rname in ("int", "symbol", "name", "from_label"):
+                import copy
+                import pickle
+
+                for cname, dup in (("copy", copy.copy), ("deepcopy", copy.deepcopy), ("pickle", lambda x: pickle.loads(pickle.dumps(x)))):
+                    try:
+                        t = dup(e)
+                        if (t.atomic_number, t.name, t.symbol, t.cov, t.vdw, t.mass) != (z,) + tuple(row) or not (t == e) or hash(t) != hash(e) or t.covalent_radius != row[2] or t.vdw_radius != row[3]:
+                            part.fail("copy-route:%s:%d" % (cname, z), "Z=%d (looked up via %s) after %s carries %r, table row is %r"
+                                      % (z, rname, cname, (t.atomic_number, t.name, t.symbol, t.cov, t.vdw, t.mass), (z,) + tuple(row)), case)
+                    except Exception as ex:
+                        part.fail("copy-route-raise:%s" % cname, "%s of Element Z=%d raised %r" % (cname, z, ex), case)
             part.outcome((rname, z % 5))
             # the caller scribbles on the object it was handed (custom radii are a common use): every later lookup, by any route, must
             # still return the tabulated data (the next routes of this loop, and the vectorised helpers below, are those lookups)
